@@ -88,9 +88,6 @@ def materialise(plan, opt, rng, work, fmt="json"):
         path_index[fn] = i
         kind = a["kind"]
         objs = [sample(sid, rng) for sid in a["ids"]]
-        if plan["fault"] == "encode" and i == 1 and objs:
-            # a lone surrogate (the JSON escape \ud800 is legal): it ends up in a Literal[...] of the rendered text, which UTF-8 cannot encode
-            objs[0]["name"] = "\ud800x"
         lookup = "-"
         data = None
         if kind == "glob" and not a.get("alias"):
@@ -183,7 +180,9 @@ def materialise(plan, opt, rng, work, fmt="json"):
                 if kind == "malformed":
                     f.write('{"a": [1, 2' if fmt == "json" else "a: [1, 2\n b: {")
                 elif kind == "nonstrkey":
-                    f.write("{1: x, sid: %d}\n" % a["ids"][0])
+                    # non-string keys at the top level, or (every second time) only inside a nested mapping called `extra` -- which is
+                    # a model without options and a Dict[str, T] field under --dkf extra: the keys are not strings either way
+                    f.write(("{1: x, sid: %d}\n" if rng.random() < 0.5 else "{sid: %d, extra: {1: x, 2: y}}\n") % a["ids"][0])
                 elif fmt == "json":
                     json.dump(data, f)
                 elif yaml11 and i == 1 and kind in ("list", "object", "lookup"):
@@ -228,7 +227,9 @@ def materialise(plan, opt, rng, work, fmt="json"):
         opt_argv = _set_fw(opt_argv, ["-f", "custom", "--code-generator", "no_such_module_j2m.Gen"])
     elif f == "generator":
         opt_argv = _set_fw(opt_argv, ["-f", "custom", "--code-generator", "j2m_raising_gen.RaisingGenerator"])
-    # (f == "encode": the content fault was placed in the first file, see ENCODE_OPT / _poison)
+    elif f == "encode":
+        # text UTF-8 cannot encode: a preamble (inserted verbatim) holding the lone surrogate Python makes of an undecodable argv byte
+        opt_argv += ["--preamble", "# caf\udce9"]
     if fmt != "json":
         opt_argv += ["-i", fmt]
     return argv + opt_argv, path_index, per_model, out_path
@@ -428,8 +429,12 @@ def run_plan(plan, opt, rng, fmt="json", sub=False):
         shutil.rmtree(work, ignore_errors=True)
 
 
-# the option set of an "encode" plan: a framework that renders observed strings as Literal[...] (so the text does hold the character)
+# the option set of an "encode" plan
 ENCODE_OPT = {"argv": ["-f", "pydantic"], "fw": "pydantic", "layout": "flat", "policy": [("percent", 70), ("number", 10)], "kw": {}}
+
+
+DKF_OPT = {"argv": ["-f", "pydantic", "--dkf", "extra"], "fw": "pydantic", "layout": "flat", "policy": [("percent", 70), ("number", 10)], "kw": {},
+           "env": {"dkf": ["extra"]}}
 
 
 def cli_traces(chk, plans, fmts=("json",), sub_every=0):
@@ -439,6 +444,8 @@ def cli_traces(chk, plans, fmts=("json",), sub_every=0):
         fmt = fmts[i % len(fmts)]
         if plan["fault"] == "encode":
             opt, fmt = ENCODE_OPT, "json"
+        if any(a["kind"] == "nonstrkey" for a in plan["args"]) and plan["fault"] == "none" and chk.rng.random() < 0.5:
+            opt = DKF_OPT               # --dkf extra: the mapping with the non-string keys is then a Dict field, not a model
         evs, inp = run_plan(plan, opt, chk.rng, fmt, sub=bool(sub_every) and i % sub_every == 0)
         tid = "cli%d" % i
         traces.append({"id": tid, "events": evs})
